@@ -18,6 +18,12 @@ func Set(f func(name string)) {
 	handler.Store(f)
 }
 
+// Get returns the installed handler (nil if none), so that a driver can wrap it temporarily.
+func Get() func(name string) {
+	f, _ := handler.Load().(func(string))
+	return f
+}
+
 // At marks a suspension point.
 func At(name string) {
 	if f, ok := handler.Load().(func(string)); ok && f != nil {
